@@ -3,6 +3,7 @@ mod codec_cases;
 mod fq;
 mod pipes;
 mod sock;
+mod ts;
 mod util;
 
 use std::alloc::{GlobalAlloc, Layout, System};
@@ -67,6 +68,7 @@ fn run_case(kind: &str, args: &[&str]) -> String {
         "ready" => codec_cases::ready(args),
         "sock" => sock::run(args),
         "fq" => fq::run(args),
+        "ts" => ts::run(args),
         "compat" => codec_cases::compat(args),
         "stypename" => codec_cases::stypename(args),
         _ => format!("unknown-kind {}", kind),
